@@ -4,7 +4,7 @@ _REG = "lib/discov/internal/registry.go"
 SPEC = dict(
     level="exploration",
     technique="runtime monitor: real discov.Subscribers (and Publishers) on the real registry/cluster/stateWatcher code bound to a model etcd (own EtcdClient injected through connManager, revisioned store + event log, harness-fed unbuffered watch channels); reference model of the live key set and of exclusive ownership; oracle only at quiescence, which is observed (goroutine states of the watch loops, listener counters, gates) and never slept for; complete small family + seeded random histories + gated schedules + -race concurrent rounds",
-    level_text="Compares, at every quiescent point of a generated history, set(Subscriber.Values()) with the distinct values of the model etcd's live keys (exclusive mode: value listed iff its most recent publisher key is live, with owner sets where the announcement order inside one snapshot is unspecified), for late joiners immediately after NewSubscriber returns, plus: no repeated value, change listener ran and its last run saw the final set whenever the set changed, a Ready after a connection loss starts a reload (stateWatcher.updateState), reload returns. Quick: complete family of 2x6^4 words over {toggle 3 keys (2 share a value), deliver, reload, late-join}; 1200 random histories (20-60 ops: put/del delivered in varied batches over several watch streams or missed until a reload, reloads, attaches, broken/cancelled watch streams, progress notifications, 1-2 service keys); 600 histories driven through the real stateWatcher; 150 gated 'reload during event processing', 120 gated 'subscriber of a new key joins while the reload waits' (also 40 under -race) and 60 gated 'two streams out of step' schedules; 400 'rekeyed' histories (a deleted key comes back with another value); Get failure + retry with RequestTimeout (300 ms) shorter than the retry cool-down (the model etcd fails Gets whose context is already expired, as a client does); 3 'first NewSubscriber fails in the client dial, retry succeeds' histories; 40 (+15 under -race) reader-storm histories (4 goroutines spinning on Values() while events are delivered, oracle after every response); 60 histories with real Publishers (KeepAlive/Stop/Pause/Resume/fixed id/lease loss); 2 histories on a real gRPC connection to a loopback server that is stopped and restarted (real watchConnState + stateWatcher.watch); 150 histories through the discov resolver builder (last cc.UpdateState state == live value set; in every second one a registration/expiration is delivered from inside Build's first UpdateState); 300 concurrent rounds under -race. Held = no deviation on the executions observed, not a proof.",
+    level_text="Compares, at every quiescent point of a generated history, set(Subscriber.Values()) with the distinct values of the model etcd's live keys (exclusive mode: value listed iff its most recent publisher key is live, with owner sets where the announcement order inside one snapshot is unspecified), for late joiners immediately after NewSubscriber returns, plus: no repeated value, change listener ran and its last run saw the final set whenever the set changed, a Ready after a connection loss starts a reload (stateWatcher.updateState), reload returns. Quick: complete family of 2x6^4 words over {toggle 3 keys (2 share a value), deliver, reload, late-join}; 1200 random histories (20-60 ops: put/del delivered in varied batches over several watch streams or missed until a reload, reloads, attaches, broken/cancelled watch streams, progress notifications, 1-2 service keys); 600 histories driven through the real stateWatcher; 150 gated 'reload during event processing', 120 gated 'subscriber of a new key joins while the reload waits' (also 40 under -race) and 60 gated 'two streams out of step' schedules; 400 'rekeyed' histories (a deleted key comes back with another value); Get failure + retry with RequestTimeout (300 ms) shorter than the retry cool-down (the model etcd fails Gets whose context is already expired, as a client does); 3 'first NewSubscriber fails in the client dial, retry succeeds' histories; 40 (+15 under -race) reader-storm histories (4 goroutines spinning on Values() while events are delivered, oracle after every response); 60 histories with real Publishers (KeepAlive/Stop/Pause/Resume/fixed id/lease loss); 80 histories with the real stateWatcher.watch loop on a scripted connection (reconnects that complete between two calls of the watcher); 2 histories on a real gRPC connection to a loopback server that is stopped and restarted (real watchConnState + stateWatcher.watch); 150 histories through the discov resolver builder (last cc.UpdateState state == live value set; in every second one a registration/expiration is delivered from inside Build's first UpdateState); 300 concurrent rounds under -race. Held = no deviation on the executions observed, not a proof.",
     level_note="Trusts: Go runtime and race detector, the ~300-line model etcd (Get snapshot+revision atomic, Watch replays the log from the requested revision), the exclusive-owner model, runtime.Stack goroutine states as the 'event fully processed' handshake. Not asserted (sound to omit): a key changing its value during its life (excluded by the quantifier); anything while undelivered changes exist (only after delivery or reload); which of several keys of one snapshot owns a shared value in exclusive mode (announcement order unspecified: either accepted); listener invocation counts beyond 'ran, and last run saw the final set'; a subscriber joining at an arbitrary point of a running reload (only the gated, WaitGroup-ordered window is scheduled); real gRPC connectivity transitions (the state watcher is fed a scripted etcdConn).",
     design_ref="DESIGN.md §3 C15",
     assumptions=[
@@ -18,11 +18,12 @@ SPEC = dict(
         "reload deadlock verdict: reload goroutine parked in WaitGroup.Wait and a watch goroutine parked on the cluster mutex for 20 s with nothing else running is the witness (the property there is termination of the reload)",
     ],
     runs=[
-        dict(pkg=_PKG, run="^TestVerifC15(Systematic|Histories|Rekeyed|Reconnect|TwoStreams|GapAfterSnapshot|GetRetry|EndToEnd|RealConnState|QuickReconnect|ReaderStorm)$", timeout=240, timeout_thorough=3000),
+        dict(pkg=_PKG, run="^TestVerifC15(Systematic|Histories|Rekeyed|Reconnect|TwoStreams|GapAfterSnapshot|GetRetry|EndToEnd|ReaderStorm)$", timeout=240, timeout_thorough=3000),
         # own process: a deadlocked cluster leaves parked goroutines behind
         dict(pkg=_PKG, run="^TestVerifC15(ReloadInflight|JoinDuringReload)$", timeout=240, timeout_thorough=3000),
-        # own process: creates (and fails to create) a real etcd client
-        dict(pkg=_PKG, run="^TestVerifC15RetryAfterDialFailure$", timeout=240, timeout_thorough=3000),
+        # own process: connection-state watcher goroutines never exit (they would slow every goroutine dump of the
+        # other families); the last family creates (and fails to create) a real etcd client
+        dict(pkg=_PKG, run="^TestVerifC15(RealConnState|QuickReconnect|RetryAfterDialFailure)$", timeout=240, timeout_thorough=3000),
         dict(pkg=_PKG, run="^TestVerifC15Race", race=True, timeout=240, timeout_thorough=3000),
         # resolver builder on top of the subscriber (model etcd put into lib/discov/internal's connManager through a go:linkname reference in the test file)
         dict(pkg="./rpc/resolver/internal", run="^TestVerifC15Resolver", timeout=240, timeout_thorough=3000),
